@@ -366,3 +366,113 @@ def sample_lines(path, every, out, offset=0):
                 o.write(line)
                 n += 1
     return n
+
+
+# --------------------------------------------------------------------------
+# Binding self-test: a comparison that cannot fail is worth nothing.  For each
+# named field of the expectation the final expectation of a few behaviours is
+# perturbed; the driver must then report a difference.  (Guards against
+# silently vacuous comparisons - decode mismatches, a class that is never
+# asserted, a loop over an empty list.)
+
+def _perturb(v):
+    """A value of the same shape that is certainly different."""
+    if isinstance(v, bool):
+        return not v
+    if isinstance(v, int):
+        return v + 1
+    if isinstance(v, float):
+        return v + 1
+    if isinstance(v, str):
+        return v + "x"
+    if isinstance(v, list):
+        if not v:
+            return [1]
+        return [_perturb(v[0])] + v[1:]      # works for sets (membership changes) and for positional arrays
+    if isinstance(v, dict):
+        if not v:
+            return {"perturbed": 1}
+        k = sorted(v.keys())[0]
+        r = dict(v)
+        r[k] = _perturb(v[k])
+        return r
+    return 1
+
+
+def _final_exp(tr):
+    if isinstance(tr.get("exp"), dict):
+        return tr, "exp"
+    steps = tr.get("steps") or []
+    if steps and isinstance(steps[-1].get("exp"), dict):
+        return steps[-1], "exp"
+    return None, None
+
+
+def binding_selftest(scratch, drv, make_args, traces_path, fields, tag="selftest", n=32, where=None):
+    """fields: list of expectation fields (or dotted paths) the property's comparison must be sensitive to.
+    make_args(infile, outfile) -> driver arguments.  where(trace) -> bool selects usable behaviours.
+    Returns {field: number of behaviours in which the perturbation was noticed}; raises Broken if a
+    perturbed field goes unnoticed in every behaviour."""
+    picked = []
+    with open(traces_path) as f:
+        for line in f:
+            try:
+                tr = json.loads(line)
+            except ValueError:
+                continue
+            holder, key = _final_exp(tr)
+            if holder is None or (where and not where(tr)):
+                continue
+            picked.append(tr)
+            if len(picked) >= n:
+                break
+    if not picked:
+        raise Broken("binding self-test: no behaviour with a final expectation in %s" % traces_path)
+    out = {}
+    for field in fields:
+        path = field.split(".")
+        inp = scratch.path("%s-%s.ndjson" % (tag, field.replace(".", "_")))
+        rep = scratch.path("%s-%s.json" % (tag, field.replace(".", "_")))
+        used = 0
+        with open(inp, "w") as o:
+            for tr in picked:
+                t = json.loads(json.dumps(tr))
+                if path[0] == "step":
+                    # a field of the last step (its prescribed result or an argument the driver asserts on)
+                    if not t.get("steps"):
+                        continue
+                    node = t["steps"][-1]
+                    path_ = path[1:]
+                else:
+                    holder, key = _final_exp(t)
+                    node = holder[key]
+                    path_ = path
+                ok = True
+                for p in path_[:-1]:
+                    if isinstance(node, dict) and p in node:
+                        node = node[p]
+                    elif isinstance(node, list) and p.isdigit() and int(p) < len(node):
+                        node = node[int(p)]
+                    else:
+                        ok = False
+                        break
+                last = path_[-1]
+                if ok and isinstance(node, list) and last.isdigit() and int(last) < len(node):
+                    node[int(last)] = _perturb(node[int(last)])
+                elif ok and isinstance(node, dict) and last in node:
+                    node[last] = _perturb(node[last])
+                else:
+                    continue
+                o.write(json.dumps(t) + "\n")
+                used += 1
+        if used == 0:
+            raise Broken("binding self-test: no picked behaviour carries the field %r" % field)
+        run_driver(drv, make_args(inp, rep), timeout=1800)
+        r = load_report(rep)
+        noticed = len({m.get("trace") for m in (r.get("mismatches") or [])}) or (1 if r.get("n_mismatch") else 0)
+        harness_errs = len(r.get("errors") or [])
+        out[field] = {"behaviours": used, "noticed_in": noticed, "harness_errors": harness_errs}
+        if noticed == 0 and harness_errs == 0:
+            raise Broken("binding self-test: perturbing %r of the expectation in %d behaviours was not noticed by the driver - "
+                         "the comparison is vacuous" % (field, used))
+    return out
